@@ -23,7 +23,8 @@ INFO = {
                    'LEFT <-> LEFT OUTER JOIN, = <-> == and swapped sides in ON, redundant FROM a / UPDATE a SET.  Literal lemma: for EVERY literal content (no quote char of its own kind, no '
                    'backslash; second shard with escaped quotes) the scanner extracts exactly that literal and the combiner restores it verbatim.',
     'bounds': 'spelling family: 14 base queries x 6 (quick) / 24 (thorough) random compositions per base (seeded by VERIF_SEED); tables 2-3 rows; literal content: symbolic, length <= 3 (quick) / 4; '
-              'end-to-end hostile literal list of 28 contents in both quote styles',
+              'end-to-end hostile literal list of 28 contents in both quote styles'
+        '; literal pairs with 1..4 trailing backslashes; literal content over a 20-member class of blank / line-boundary characters end to end (solver-enumerated)',
     'outside': 'symbolic query text as a whole (compile() is a C entry point); literal contents containing RBQL\'s own placeholder token; triple-quoted literals; JS twin',
     'assumptions': ['back-reference expansion of the literal scanner regex is equivalent to the original (validated per run on concrete vectors under the real re module)'],
     'trusted': ['crosshair-tool 0.0.110', 'z3', 'CPython 3.12.1 re'],
